@@ -782,7 +782,7 @@ pub fn c18(rep: &mut Report, cfg: &Cfg) {
     let gaps: &[u64] = if cfg.tier_thorough { &[1, 3, 6, 11, 16, 21, 31, 46, 61, 91, 121, 2, 4, 8, 13, 35] } else { &[1, 2, 3, 4, 5, 6, 7, 8, 9, 10, 11, 12, 1, 2, 3, 4] };
     let gap = gaps[(cfg.shard as usize) % gaps.len()];
     e2e_session_gap(rep, rng.next(), false, gap * 1000 + 300);
-    rep.notes.push("C18: in-process run() on a spinning guest with the channel-backed socket; the per-iteration hook delivers a generated line sequence (cmd:pause/start/stop, u8 stores to memory and port registers, ioport pin changes, ~45 kinds of malformed lines) under every partition into polling batches for short sequences (all compositions) and seeded partitions otherwise; judged against a sequential model (memory, port state, nothing applied after stop), pause honoured iteration by iteration (state count in the hook), and all partitions must give identical ioport message sequences and final state. End-to-end: the release binary with -s -w over real TCP, script sent in one write / byte by byte / split mid-line with delays / line by line; the wire transcript must unescape line by line to exactly the emitted messages in order (texts with newline, backslash, multi-byte UTF-8; one text poked through u8 lines with overwrites). Time-outs are inconclusive. Cells: (partition shape, #batches, #lines), (line kind, position in batch), chunking modes, escape classes.".into());
+    rep.notes.push("C18: in-process run() on a spinning guest with the channel-backed socket; the per-iteration hook delivers a generated line sequence (cmd:pause/start/stop, u8 stores to memory and port registers, ioport pin changes, ~45 kinds of malformed lines) under every partition into polling batches for short sequences (all compositions) and seeded partitions otherwise; judged against a sequential model (memory, port state, nothing applied after stop), run/pause behaviour iteration by iteration against every in-order prefix of the delivered lines the emulator may have handled so far (the prefix grows, never passes a stop, reaches every line within lines-queued-ahead + 4 iterations), and all partitions must give identical ioport message sequences and final state. Junk includes numbers that overflow their field with a valid command in the low bits. End-to-end: the release binary with -s -w over real TCP, script sent in one write / byte by byte / split mid-line with delays / line by line; the ready / stdout / ioport lines of the wire transcript (other kinds and repeated port announcements left out) must unescape to exactly the expected messages in order (texts with newline, backslash, multi-byte UTF-8; one text poked through u8 lines with overwrites); over-long junk lines whose tail reads as a command; idle periods on the connection (1-12 s quick, 1-121 s thorough) with a control run of the same session without the gap deciding between time-out and no reaction. Other time-outs are inconclusive. Cells: (partition shape, #batches, #lines), (line kind, position in batch), chunking modes, escape classes.".into());
 }
 
 pub fn replay(line: &str) -> (bool, String) {
